@@ -30,7 +30,7 @@ def parseSched (j : Json) : Except String (List (String × List Float)) := do
     | [k, v] => pure ((← k.getStr?), (← asFs v))
     | _ => throw "sched entry must be [station, rates]"
 
-def handle (j : Json) : Except String Json := do
+def handleOne (j : Json) : Except String Json := do
   let stations ← (← getArr j "stations").mapM (·.getStr?)
   let cids ← (← getArr j "cids").mapM (·.getStr?)
   let hasM ← getBool j "has_matrix"
@@ -98,5 +98,14 @@ def handle (j : Json) : Except String Json := do
     out := out ++ [("alg1", jB (i.feasible1 x false vt rt)), ("alg1_lin", jB (i.feasible1 x true vt rt))]
   | _, _ => pure ()
   pure (Json.mkObj out)
+
+/-- a history: `{"batch":[request, …]}` — one request per query of the same network object, each
+    carrying the CURRENT constraint list; answered by `{"batch":[answer, …]}` -/
+def handle (j : Json) : Except String Json :=
+  match j.getObjVal? "batch" with
+  | .ok b => do
+    let rs ← (← asArr b).mapM handleOne
+    pure (Json.mkObj [("batch", Json.arr rs.toArray)])
+  | .error _ => handleOne j
 
 def main : IO Unit := runDriver handle
